@@ -163,7 +163,9 @@ impl<'a> Tokenizer<'a> {
         // LLVM can inline all of this and compile it down to fast iteration over bytes.
         let mut escaped = false;
         while !self.is_eof() && predicate(self.peek().unwrap(), escaped) {
-            escaped = self.bump() == Some('\\');
+            // a backslash only escapes the next char if it was not itself escaped
+            let c = self.bump();
+            escaped = !escaped && c == Some('\\');
         }
     }
 }
